@@ -38,7 +38,7 @@ def plan(tier):
 
 
 def n_cases(tier):
-    return 3000 if tier == 'thorough' else 400
+    return 18000 if tier == 'thorough' else 400
 
 
 DELIMS = ['\n', '\n', ',', '||', 'ab', '\r\n', 'é|']
